@@ -349,10 +349,11 @@ def paircoal_call(ts, a, rng, S):
     allidx = [(i, j) for i in range(k) for j in range(i, k)]
     indexes = [list(p) for p in rng.sample(allidx, rng.randint(1, min(2, len(allidx))))]
     windows, warg = pick_windows(rng, a["L"])
-    r = np.array(ts.pair_coalescence_counts(sets, indexes=[tuple(i) for i in indexes], windows=warg, span_normalise=False, pair_normalise=False),
+    sn = rng.random() < 0.5
+    r = np.array(ts.pair_coalescence_counts(sets, indexes=[tuple(i) for i in indexes], windows=warg, span_normalise=sn, pair_normalise=False),
                  dtype=float).reshape((len(windows) - 1, len(indexes), ts.num_nodes))
-    return base("paircoal", "pair_coalescence_counts", "tree", sets=sets, indexes=indexes, windows=windows,
-                result=[[[scaled(v, 1, 1) for v in r[q][i]] for i in range(len(indexes))] for q in range(len(windows) - 1)])
+    return base("paircoal", "pair_coalescence_counts", "tree", sets=sets, indexes=indexes, windows=windows, span_normalise=1 if sn else 0,
+                result=[[[(frac(v) if sn else scaled(v, 1, 1)) for v in r[q][i]] for i in range(len(indexes))] for q in range(len(windows) - 1)])
 
 
 def _ancestors(t, u):
@@ -360,6 +361,34 @@ def _ancestors(t, u):
     while u != tskit.NULL:
         yield u
         u = t.parent(u)
+
+
+def gap_paircoal_case(rng):
+    """span-normalised pair coalescence counts with a window boundary strictly inside a stretch of missing sequence (no edges), the
+    windows on both sides holding coalescences: the "span of non-missing sequence in the window" must be split between the two windows"""
+    K = rng.randint(4, 6)
+    a = gen.coalescent_abstract(rng, nleaves=rng.randint(3, 4), ninternal=rng.randint(2, 3), K=K, p_keep=0.6, p_join=1.0)
+    g0 = rng.randint(1, K - 3)
+    g1 = rng.randint(g0 + 2, K - 1)
+    edges = []
+    for e in a["edges"]:
+        if e["left"] < g0:
+            edges.append(dict(e, right=min(e["right"], g0)))
+        if e["right"] > g1:
+            edges.append(dict(e, left=max(e["left"], g1)))
+    edges.sort(key=lambda e: (a["time"][e["parent"]], e["parent"], e["child"], e["left"]))
+    a = dict(a, edges=edges)
+    ts = gen.build_tables(a).tree_sequence()
+    S = [u for u in range(len(a["time"])) if a["flags"][u]]
+    cut = rng.randint(g0 + 1, g1 - 1)
+    windows = sorted({0, cut, K} | ({rng.randint(1, K - 1)} if rng.random() < 0.4 else set()))
+    sets = [S] if rng.random() < 0.5 else [S[:len(S) // 2], S[len(S) // 2:]]
+    indexes = [[0, 0]] if len(sets) == 1 else [[0, 1]]
+    r = np.array(ts.pair_coalescence_counts(sets, indexes=[tuple(i) for i in indexes], windows=np.array(windows, dtype=float), span_normalise=True,
+                                            pair_normalise=False), dtype=float).reshape((len(windows) - 1, len(indexes), ts.num_nodes))
+    call = base("paircoal", "pair_coalescence_counts", "tree", sets=sets, indexes=indexes, windows=windows, span_normalise=1,
+                result=[[[frac(v) for v in r[q][i]] for i in range(len(indexes))] for q in range(len(windows) - 1)])
+    return dict(ts=dict(L=a["L"], time=a["time"], flags=a["flags"], edges=a["edges"], sites=[], muts=[]), calls=[call])
 
 
 def treedist_call(ts, a, rng, S):
@@ -549,6 +578,9 @@ def run():
         else:   # sample-rich, coalescent-like
             a = gen.add_sites(gen.coalescent_abstract(rng, nleaves=rng.randint(3, 5), ninternal=rng.randint(2, 4), K=rng.randint(1, 5),
                                                       p_internal_sample=rng.choice([0.0, 0.0, 0.3])), rng, nsites=4, nmuts=3, nalleles=3)
+        if rng.random() < 0.3:
+            # a stretch of the genome without any edge (missing sequence), with a fresh site layer on top
+            a = gen.add_sites(gen.punch_gap(a, rng), rng, nsites=4, nmuts=3, nalleles=3)
         S = [u for u in range(len(a["time"])) if a["flags"][u]]
         if len(S) < 2:
             continue
@@ -592,6 +624,8 @@ def run():
         c = ld_case(rng)
         if c:
             cases.append(c)
+    for _ in range(40 if QUICK else 1000):
+        cases.append(gap_paircoal_case(rng))
     # binding self-test: one recorded value of one call of each kind is changed; TLC must reject exactly those
     corrupted = []
     seen_kinds = {}
@@ -616,6 +650,8 @@ def run():
                     x["result"][w][i] = [x["result"][w][i][0] + 1, x["result"][w][i][1] + 2]
             elif x["kind"] in ("gnn", "meandesc"):
                 x["result"][0][0] = [x["result"][0][0][0] + 1, x["result"][0][0][1] + 2]
+            elif x["kind"] == "paircoal" and x["span_normalise"]:
+                x["result"][0][0][0] = [x["result"][0][0][0][0] + 1, x["result"][0][0][0][1] + 2]
             elif x["kind"] == "paircoal" or x["mode"] == "node" and x["kind"] == "count":
                 x["result"][0][0][0] += 1
             else:
